@@ -206,6 +206,20 @@ func registerNd(e *Engine) {
 		outBytes(x, x.concreteStr(args[0], "nd name"), args[1].(*Str).B)
 		return nil
 	}
+	I[p+"In"] = func(x *Exec, caller *frame, fn *ssa.Function, args []Value) Value {
+		r := x.ctx.False
+		for _, c := range args[1].(Slice).C {
+			r = x.ctx.BOr(r, x.ctx.Eq(args[0].(*Term), c.V.(*Term)))
+		}
+		return r
+	}
+	I[p+"InStr"] = func(x *Exec, caller *frame, fn *ssa.Function, args []Value) Value {
+		r := x.ctx.False
+		for _, c := range args[1].(Slice).C {
+			r = x.ctx.BOr(r, x.valEq(args[0], c.V))
+		}
+		return r
+	}
 	I[p+"Epoch"] = func(x *Exec, caller *frame, fn *ssa.Function, args []Value) Value {
 		x.epoch++
 		return nil
